@@ -202,7 +202,7 @@ def model(c, tier):
         out[fam] = [x["script"] for x in r.replay]
         if not out[fam]:
             raise vlib.ToolError("no fault sequences exported for " + fam)
-    devs = ["BoundedHandshakes", "InlineTls", "ExitOnAcceptErr", "AssocEnds_PropagateSend", "PropagateSendTo", "StuckLocal", "PropagateBind", "ReplyTaskEnds", "AssocEnds"]
+    devs = ["BoundedHandshakes", "InlineTls", "ExitOnAcceptErr", "AssocEnds_PropagateSend", "PropagateSendTo", "StuckLocal", "PropagateBind", "ReplyTaskEnds", "AssocEnds", "EncoderPanics"]
     jobs = [dict(module="Service", cfg="Service_dev_%s.cfg" % k, workers=2, timeout=600) for k in devs]
     seen = {}
     for k, r in zip(devs, vlib.tlc_parallel(jobs, parallel=4)):
